@@ -238,7 +238,7 @@ func (r *Report) finish(verifDir string, known []*knownEntry, st runStats, extra
 			rp := filepath.Join(replayDir, fmt.Sprintf("%s_%s.json", r.Prop, sanitize(o.Key())))
 			b, _ := json.MarshalIndent(map[string]interface{}{"property": r.Prop, "obligation": o, "tier": st.Tier}, "", " ")
 			os.WriteFile(rp, b, 0o644)
-			lines = append(lines, fmt.Sprintf("%s %s %s [%s] at %s: %s", strings.ToUpper(string(o.Verdict)), o.Rule, o.Func, o.Construct, o.Pos, o.Reason))
+			lines = append(lines, fmt.Sprintf("FAILED-OBLIGATION (%s) %s %s [%s] at %s: %s", string(o.Verdict), o.Rule, o.Func, o.Construct, o.Pos, o.Reason))
 			for _, p := range o.Path {
 				lines = append(lines, "      path: "+p)
 			}
@@ -305,14 +305,23 @@ func (r *Report) finish(verifDir string, known []*knownEntry, st runStats, extra
 		"packages":            st.Packages,
 		"functions":           st.Functions,
 		"callgraph_edges":     st.CGEdges,
-		"known_findings":      kf,
+		"known_findings":      kfOrEmpty(kf),
 		"instances_per_rule":  counts,
 		"floors":              r.Floors,
 		"all_obligations":     r.Obs,
-		"notes":               r.Notes,
+		"notes":               notesOrEmpty(r.Notes),
 	}
 	for k, v := range extra {
 		cov[k] = v
+	}
+	if r.Assume == nil {
+		r.Assume = []string{}
+	}
+	if r.Notes == nil {
+		r.Notes = []string{}
+	}
+	if kf == nil {
+		kf = []string{}
 	}
 	ev := map[string]interface{}{
 		"property_id": r.Prop,
@@ -352,3 +361,12 @@ func sanitize(s string) string {
 	}
 	return out
 }
+
+func kfOrEmpty(a []string) []string {
+	if a == nil {
+		return []string{}
+	}
+	return a
+}
+
+func notesOrEmpty(a []string) []string { return kfOrEmpty(a) }
